@@ -33,7 +33,6 @@ PROPERTY = {
                  bound="state shape restricted (later words concrete)", tier="thorough", functions=[F + "StreamIdSet::allocate"]) for k in (0, 255, 511)] + [
         Harness("c02_allocate_full", "C02.stream_id_set.allocate.full", "PROVED-C", "all 32768 ids used => None, state unchanged (the unique full state)", tier="thorough", functions=[F + "StreamIdSet::allocate"]),
         Harness("c02_new_shape", "C02.stream_id_set.new.shape", "PROVED-C", "StreamIdSet::new: 512 zero words", functions=[F + "StreamIdSet::new"]),
-        Harness("c02_twin_orphaned_id_stays_reserved", "C02.twin.orphaned_id_stays_reserved", "BOUNDED", "history allocate(A), orphan(A), allocate(B), lookup(A), lookup(B) on the compiled code with real std HashMaps: B never gets A's id, A's late response is Orphaned, B gets its own handler", bound="one 5-step history, 8-word bitmap", twin=True, timeout=1800, functions=[F + "ResponseHandlerMap::allocate", F + "ResponseHandlerMap::orphan", F + "ResponseHandlerMap::lookup"]),
         Harness("c02_canary_allocate_zero", "C02.kani.canary", "PROVED-C", "a false claim must be refuted", carries=False, canary=True),
     ],
     "trusted_base": [
